@@ -274,6 +274,12 @@ fn get_match_statically_known(
     provider.query_variable = &query_variable;
     provider.query_function = &asm::resolver::get_statically_known_builtin_fn;
 
+    // The arguments are written where the instruction stands:
+    // the names in them never refer to the rule's parameters
+    let mut arg_provider = expr::StaticallyKnownProvider::new();
+    arg_provider.query_variable = &query_variable;
+    arg_provider.query_function = &asm::resolver::get_statically_known_builtin_fn;
+
     for i in 0..rule.parameters.len()
     {
         let param = &rule.parameters[i];
@@ -291,7 +297,7 @@ fn get_match_statically_known(
                     // Always declare the parameter, so that its name
                     // cannot be mistaken for a global symbol's
                     let value_known =
-                        arg_expr.is_value_statically_known(&provider);
+                        arg_expr.is_value_statically_known(&arg_provider);
 
                     provider.locals.insert(
                         param.name.clone(),
